@@ -256,6 +256,11 @@ def _sqrt(x):
     return sreal(x).sqrt()
 
 
+def _log10(x):
+    stub_hit('S-log10')
+    return sreal(x).log10()
+
+
 def _abs(x):
     return abs(lift(x))
 
@@ -328,6 +333,7 @@ UF = {
     np.ceil: _fp(_ceil, 1),
     np.rint: _fp(_rint, 1),
     np.sqrt: _fp(_sqrt, 1),
+    np.log10: _fp(_log10, 1),
     np.sign: _fp(_sign, 1),
     np.cos: _fp(_cos, 1),
     np.sin: _fp(_sin, 1),
@@ -1384,6 +1390,11 @@ class Proxy(types.ModuleType):
                 return a
             return SymReal(a.v + e if up else a.v - e, Or_(a.nan, b.nan), FALSE)
         return np.nextafter(a, b)
+
+    def log10(self, x, *a, **kw):
+        if active() and isinstance(x, (float, int, np.floating, np.integer)) and not a and not kw:
+            sc.log10_anchor(x)
+        return np.log10(x, *a, **kw)
 
     def require(self, a, dtype=None, requirements=None, **kw):
         if has_sym(a):
